@@ -227,7 +227,7 @@ def verify(name, info, timeout, mem_gb, workdir, want_trace=False):
         r["reason"] = str(e)
         r["wall_s"] = round(time.time() - t0, 2)
         return r
-    cmd = ["cbmc"] + CBMC_FLAGS
+    cmd = ["cbmc"] + CBMC_FLAGS + os.environ.get("VERIF_CBMC_EXTRA", "").split()
     if info.get("unwind") is not None:
         cmd += ["--unwind", str(info["unwind"])]
     cmd += ["--sat-solver", "cadical", "--slice-formula", goto, "--verbosity", "8", "--json-ui"]
